@@ -23,8 +23,14 @@ def run_one(prop: str, patch: str, tier: str = "quick") -> tuple[bool, str]:
     tmp = tempfile.mkdtemp(prefix="opv-mut-")
     try:
         shutil.copytree(os.path.join(REPO, "openpectus"), os.path.join(tmp, "openpectus"),
-                        ignore=shutil.ignore_patterns("__pycache__", "frontend-dist", "*.pyc"))
-        p = subprocess.run(["patch", "-p1", "-s", "-i", patch], cwd=tmp, capture_output=True, text=True)
+                        ignore=shutil.ignore_patterns("__pycache__", "*.pyc"))
+        # the openapi comparison of the aggregator server looks for ../frontend/openapi.json next to the package
+        if os.path.exists(os.path.join(REPO, "frontend", "openapi.json")):
+            os.makedirs(os.path.join(tmp, "frontend"), exist_ok=True)
+            shutil.copy(os.path.join(REPO, "frontend", "openapi.json"), os.path.join(tmp, "frontend", "openapi.json"))
+        head = open(patch).read(4000)
+        strip = "-p1" if ("--- a/" in head or "+++ b/" in head) else "-p0"
+        p = subprocess.run(["patch", strip, "-s", "-f", "-i", patch], cwd=tmp, capture_output=True, text=True)
         if p.returncode != 0:
             return False, f"patch does not apply: {p.stdout[-300:]}{p.stderr[-300:]}"
         env = dict(os.environ, OPV_REPO=tmp, OPV_JOBS=os.environ.get("OPV_JOBS", "8"))
